@@ -79,8 +79,9 @@ FirstBad(gg, tk) ==          \* index of the first token (eof = Len+1) whose pre
   LET ext == Append(tk, Eof(Gs[gg]))
       bad == {k \in 1..Len(ext) : IF k <= Len(tk) THEN SubSeq(tk, 1, k) \notin PrefOf[gg] ELSE tk \notin LangOf[gg]}
   IN IF bad = {} THEN 0 ELSE CHOOSE k \in bad : \A k2 \in bad : k <= k2
+Reduced == [gg \in 1..NG |-> ReducedReachable(Gs[gg])]
 ReportedOnceAtTheRightPlace ==
-  (Done /\ ConflictFree(g) /\ NoErrRules(g)) =>
+  (Done /\ ConflictFree(g) /\ NoErrRules(g) /\ Reduced[g]) =>
      LET tk == Toks(g, inp, 0, <<>>) IN
      IF status = "acc" THEN msgs = <<>>
      ELSE /\ Len(msgs) = 1
@@ -90,4 +91,12 @@ ReportedOnceAtTheRightPlace ==
                   /\ msgs[1][4] = Append(tk[2], Eof(Gs[g]))[k]
 
 Safe == D!StacksInSync /\ D!PositionsInRange
+
+(************************* expected behaviours for given inputs ***********)
+\* VERIF_GIVEN: ndjson of [g, bytes, ws, nl]; TLC runs the specification on each and prints the outcome
+Given == IF "VERIF_GIVEN" \in DOMAIN IOEnv THEN ndJsonDeserialize(IOEnv.VERIF_GIVEN) ELSE <<>>
+InitGiven == \E i \in 1..Len(Given) : D!Init0(Given[i].g, Given[i].bytes, [v |-> TRUE, ws |-> Given[i].ws, nl |-> Given[i].nl])
+SpecGiven == InitGiven /\ [][Next]_vars
+VerdictReported == ~Done \/ PrintT(<<"VERDICT", ToJson([g |-> g, bytes |-> inp, ws |-> opt.ws, nl |-> opt.nl, status |-> status, msgs |-> msgs,
+                                                         root |-> IF status = "acc" THEN vals[1] ELSE -1, nnodes |-> Len(nodes)])>>)
 =============================================================================
